@@ -4,7 +4,7 @@
    and tied to the stylesheet by the xslstr correspondence stage. *)
 Require Import BB.Base.Str BB.Base.Xml BB.Model.PegSyntax BB.Model.Unparse.
 Require Import BB.Gen.Grammar BB.Gen.TablesXsl.
-Require Import BB.Proofs.Tables.
+Require Import BB.Model.Types BB.Proofs.Tables BB.Proofs.EscapeLossless.
 
 (* the hand-maintained keyword list of escape-prefixes covers every keyword literal of the grammar,
    except the committed gaps *)
@@ -26,6 +26,21 @@ Theorem C06_inline_openers_escaped :
   && subset [of_string "**"; of_string "//"; of_string "__"; of_string "{{"; of_string "}}"] (map fst xsl_escape_chain) = true.
 Proof. exact inline_openers_escaped. Qed.
 Print Assumptions C06_inline_openers_escaped.
+
+(* for every string: what the parser's unescape reads back from escape-inlines' output is the text
+   itself (line breaks as spaces) ... *)
+Theorem C06_escape_inlines_lossless : forall s, unescape (escape_inlines s) = nl_to_space s.
+Proof. exact escape_inlines_lossless. Qed.
+Print Assumptions C06_escape_inlines_lossless.
+
+(* ... and, read the way the grammar reads (a backslash takes the next character), no two consecutive
+   unescaped * / _ { } remain: none of ** // __ {{ }} can open or close an inline *)
+Theorem C06_escape_inlines_no_live_marker : forall s, has_live (escape_inlines s) = false.
+Proof. exact escape_inlines_no_live_marker. Qed.
+Print Assumptions C06_escape_inlines_no_live_marker.
+
+Example C06_example_live : has_live (of_string "a **b** c") = true /\ has_live (of_string "a \**b") = false.
+Proof. split; vm_compute; reflexivity. Qed.
 
 Example C06_example : (length (keywords akn_peg) = 94)%nat /\ covered (of_string "SUBPARA") = true /\ covered (of_string "ITEM") = true /\ covered (of_string "IMG") = false.
 Proof. repeat split; vm_compute; reflexivity. Qed.
